@@ -12,6 +12,7 @@ package ledger
 // write set and every transaction's ExecuteNotify (state, gas, notifications).
 
 import (
+	"bytes"
 	"crypto/sha256"
 	"encoding/hex"
 	"encoding/json"
@@ -31,6 +32,7 @@ import (
 	"github.com/ontio/ontology/common/config"
 	"github.com/ontio/ontology/common/constants"
 	"github.com/ontio/ontology/core/payload"
+	"github.com/ontio/ontology/core/program"
 	"github.com/ontio/ontology/core/signature"
 	"github.com/ontio/ontology/core/store"
 	"github.com/ontio/ontology/core/types"
@@ -531,6 +533,31 @@ func TestC02_ReplicasAgree(t *testing.T) {
 					tx, err := mtx.IntoImmutable()
 					if err != nil {
 						t.Fatal(err)
+					}
+					// a non-canonical spelling of the payer's verification script (complete single-key script,
+					// then the terminator again): if the validator accepts it at all, the node that validated
+					// and the nodes that decode the bytes must still derive the same signers and state
+					if kind == "transfer" && len(from.Keys) == 1 && len(set) == 1 && rapid.IntRange(0, 5).Draw(t, "respell-script") == 0 {
+						prog := program.ProgramFromPubKey(from.Keys[0].PublicKey)
+						raw := tx.ToArray()
+						if i := bytes.LastIndex(raw, append([]byte{byte(len(prog))}, prog...)); i >= 0 && len(prog) < 0xfc {
+							alt := append([]byte{}, raw[:i]...)
+							alt = append(alt, byte(len(prog)+1))
+							alt = append(alt, prog...)
+							alt = append(alt, prog[len(prog)-1]) // CHECKSIG once more
+							alt = append(alt, raw[i+1+len(prog):]...)
+							if tx2, err := types.TransactionFromRawBytes(alt); err == nil {
+								if code := validation.VerifyTransaction(tx2); code == ontErrors.ErrNoError {
+									tx = tx2
+									d.Extra += " script+CHECKSIG:accepted-by-validator"
+									ev.Class("respelt-script:accepted-by-validator")
+								} else {
+									ev.Class("respelt-script:rejected-by-validator")
+								}
+							} else {
+								ev.Class("respelt-script:rejected-by-decoder")
+							}
+						}
 					}
 					txs = append(txs, tx)
 				case "evm-transfer", "evm-create":
